@@ -13,6 +13,7 @@ for p in "$@"; do
   rc=$?
   t1=$(date +%s)
   line=$(echo "$out" | grep -m1 -A1 "VIOLATION" | tr '\n' ' ' | cut -c1-330)
-  echo "  check $p $tier: rc=$rc ($((t1-t0))s) $line"
+  nw=$(echo "$out" | grep -o "violations=[0-9]* (in [0-9]* worlds)" | head -1)
+  echo "  check $p $tier: rc=$rc ($((t1-t0))s) [$nw] $line"
   [ $rc = 2 ] && echo "$out" | tail -5 | cut -c1-300
 done
